@@ -1,5 +1,28 @@
-/- Line-protocol driver for the C09 model (stub until the model exists). -/
-import ForML.Model.Sexp
-open ForML
+/- Line-protocol driver for the C09 model (ForML.Model.Matcher).
 
-def main : IO Unit := driverLoop (fun _ => .atom "no-model")
+   (c09 <statement> ((<prio|inf> (<advertised source>*))*))
+       → (ok <(some i)|none> (<covers_i>*) (<resolves_i>*))
+     i = construction index of the feed `Importer.match` returns (none = MissingError); per feed of the pool (in
+     construction order) whether its matcher accepts the statement and whether its parser resolves all sources
+   every line may be wrapped as (let ((x sexp) …) body), `$x` atoms are substituted. -/
+import ForML.Model.Sexp
+import ForML.Model.Dsl
+import ForML.Model.Matcher
+open ForML ForML.Dsl ForML.Matcher
+
+def stepC09 (line : Sexp) : Sexp :=
+  match expandLet line with
+  | none => .atom "bad-op"
+  | some x =>
+    match x with
+    | .list [.atom "c09", stmt, .list slots] =>
+      match Source.ofSexp stmt, slots.mapM Slot.ofSexp with
+      | some s, some pool =>
+        .list [.atom "ok",
+          Sexp.ofOption Sexp.ofNat (select pool s),
+          .list (pool.map (fun f => Sexp.ofBool (covers f.sources s))),
+          .list (pool.map (fun f => Sexp.ofBool (resolves f.sources s)))]
+      | _, _ => .atom "bad-op"
+    | _ => .atom "bad-op"
+
+def main : IO Unit := driverLoop stepC09
